@@ -962,8 +962,17 @@ fn hang_check(comp: &str) -> Option<&'static str> {
 fn cmd_selftest() -> i32 {
     let seed = seed_from_env();
     let mut bad = 0;
-    for comp in ["C01", "C02", "C04", "C08", "C09p", "C09r", "C10", "C11", "C13", "C13t", "C14r", "C14w", "C14s", "C16", "C16t"] {
-        let runs = if comp == "C10" { 48 } else if comp == "C04" { 2_000 } else { 40_000 };
+    for comp in [
+        "C01", "C01g", "C02", "C02m", "C04", "C04g", "C08", "C09p", "C09r", "C10", "C10r", "C11", "C13", "C13t", "C14r", "C14w",
+        "C14s", "C16", "C16t",
+    ] {
+        let runs = match comp {
+            "C10" => 48,
+            "C10r" => 400,
+            "C04" => 2_000,
+            "C01g" | "C02m" | "C04g" => 2,
+            _ => 40_000,
+        };
         let mut res = vec![];
         for threads in [1usize, 16, 5] {
             let o = dispatch!(comp, p => {
